@@ -122,6 +122,13 @@ Proof.
 Qed.
 Print Assumptions C18_mark_in_balance_needs_ready_majority.
 
+(* (5) where valid layouts come from: the layout CreateNamespace writes for a partition is valid whenever the
+       placement proposes distinct nodes (C17's subject) *)
+Theorem C18_created_layout_valid : forall replica l i,
+  NoDup l -> create_partition replica l = Some i -> Inv replica i.
+Proof. exact create_partition_inv. Qed.
+Print Assumptions C18_created_layout_valid.
+
 (* ---------- non-vacuity ---------- *)
 (* a valid 3-replica layout on nodes 1,2,3; all five nodes registered and answering; node 3 is lost; after the
    wait interval the check marks it removing; the data nodes drop it; after the removing wait the check takes it
